@@ -1,5 +1,5 @@
 """Rule families shared by the property modules (CAST, PANIC, ALLOC, ...)."""
-from .core import callee_of, callee_names, is_call_to, fold
+from .core import callee_of, callee_names, is_call_to, fold, receiver_root
 from .ranges import Ranges, canon, ty_range, INT, INF, LEN_MAX
 
 F64_EXACT = (-(2**53), 2**53)
@@ -1016,6 +1016,18 @@ def comparator_calls(B):
     return out
 
 
+def _last_named_field(c):
+    """last struct-field name on the projection path of a canonical place (None for tuple/variant positions and non-places)"""
+    if not (isinstance(c, tuple) and c and c[0] == 'place'):
+        return None
+    for x in reversed(c[2]):
+        if isinstance(x, str) and x and not x[0].isdigit() and not x.startswith('as:') and x not in ('*',):
+            return x
+        if isinstance(x, str) and (x[0].isdigit() or x.startswith('as:')):
+            return None
+    return None
+
+
 def check_self_compare(ctx, B, rule):
     """A comparison whose two operands are the same value is constant: `a.f.cmp(&a.f)` where `a.f.cmp(&b.f)` was meant."""
     n = 0
@@ -1028,4 +1040,102 @@ def check_self_compare(ctx, B, rule):
             inst = uniq_key(seen, '%s:%s(%s)' % (B.path, nm, describe(B, ca)))
             ctx.bad(rule, inst, 'compares %s with itself: the result is constant, so two values that differ in it are ordered/equated as if they did not' % describe(B, ca),
                     ctx.where(B, bb), key='SELFCMP:%s' % inst)
+            continue
+        fa, fb = _last_named_field(ca), _last_named_field(cb)
+        if fa and fb and fa != fb:
+            inst = uniq_key(seen, '%s:%s(%s,%s)' % (B.path, nm, describe(B, ca), describe(B, cb)))
+            ctx.bad(rule, inst, 'compares the field `%s` of one value with the field `%s` of the other' % (fa, fb), ctx.where(B, bb), key='CMPFIELDS:%s' % inst)
     return n
+
+
+# ------------------------------------------------------ comparison orientation ----
+def operand_side(B, op, sides, upmap=None, depth=0):
+    """Which of the function's two compared parameters does operand `op` derive from? Follows receiver chains
+    (x.f.iter().rev() -> x) and, inside a closure, the captured variables. sides: {arg index: 'a'|'b'};
+    upmap (closures): {upvar index as str: 'a'|'b'}."""
+    if depth > 12:
+        return None
+    root = receiver_root(B, op)[0]
+    if root is None:
+        return None
+    if root[0] == 'arg':
+        if upmap is not None:
+            projs = [x for x in (root[2] if len(root) > 2 else ()) if isinstance(x, str)]
+            for x in projs:
+                x = x.split(':')[-1]
+                if x in upmap:
+                    return upmap[x]
+            return None
+        return sides.get(root[1])
+    if root[0] == 'call':
+        t = B.blocks[root[2]]['t']
+        if t['k'] == 'call' and t['args']:
+            return operand_side(B, t['args'][0], sides, upmap, depth + 1)
+    return None
+
+
+def operand_chain(B, op, depth=0):
+    """names of the calls an operand's value passes through on its way from the parameter (innermost last)"""
+    out = []
+    while depth < 12:
+        depth += 1
+        root = receiver_root(B, op)[0]
+        if root is None or root[0] != 'call':
+            break
+        t = B.blocks[root[2]]['t']
+        out.append(root[1])
+        if t['k'] != 'call' or not t['args']:
+            break
+        op = t['args'][0]
+    return out
+
+
+def orientation_of_region(P, B, region, sides):
+    """For the blocks `region` of a two-parameter comparison function: list of
+    (body, bb, name, orientation, chains) for every comparison reachable there (closures created in the region
+    included); orientation is +1 when the comparison is a-vs-b after all enclosing Ordering::reverse calls,
+    -1 when it is b-vs-a, None when the operands could not be attributed."""
+    out = []
+    revs = [(bb, t) for bb, t in B.calls() if bb in region and (callee_of(t)[0] or '').endswith('Ordering::reverse')]
+
+    def flips(local):
+        d = B.derived_locals([local])
+        n = 0
+        for bb, t in revs:
+            if t['args'] and any(l in d or l == local for l in B._op_locals(t['args'][0])):
+                n += 1
+        return n
+    for bb, nm, _ in comparator_calls(B):
+        if bb not in region:
+            continue
+        t = B.blocks[bb]['t']
+        if t['k'] != 'call':
+            continue
+        sa, sb = operand_side(B, t['args'][0], sides), operand_side(B, t['args'][1], sides)
+        base = 1 if (sa, sb) == ('a', 'b') else -1 if (sa, sb) == ('b', 'a') else None
+        o = None if base is None else base * (-1) ** flips(t['dst']['l'])
+        out.append((B, bb, nm, o, (operand_chain(B, t['args'][0]), operand_chain(B, t['args'][1]))))
+    for bb in sorted(region):
+        for st in B.blocks[bb]['s']:
+            if st['k'] == '=' and st['rv']['k'] == 'agg' and st['rv']['ak'] == 'closure':
+                CB = P.B(st['rv']['def'])
+                if CB is None:
+                    continue
+                upmap = {}
+                for i, o_ in enumerate(st['rv']['ops']):
+                    s_ = operand_side(B, o_, sides)
+                    if s_:
+                        upmap[str(i)] = s_
+                f = flips(st['pl']['l'])
+                for cbb, nm, _ in comparator_calls(CB):
+                    t = CB.blocks[cbb]['t']
+                    if t['k'] != 'call':
+                        continue
+                    sa, sb = operand_side(CB, t['args'][0], {}, upmap), operand_side(CB, t['args'][1], {}, upmap)
+                    base = 1 if (sa, sb) == ('a', 'b') else -1 if (sa, sb) == ('b', 'a') else None
+                    inner = [(b2, t2) for b2, t2 in CB.calls() if (callee_of(t2)[0] or '').endswith('Ordering::reverse')]
+                    dd = CB.derived_locals([t['dst']['l']])
+                    fi = sum(1 for b2, t2 in inner if t2['args'] and any(l in dd for l in CB._op_locals(t2['args'][0])))
+                    o = None if base is None else base * (-1) ** (f + fi)
+                    out.append((CB, cbb, nm, o, (operand_chain(CB, t['args'][0]), operand_chain(CB, t['args'][1]))))
+    return out
